@@ -103,11 +103,33 @@ def check(ctx):
         o.rule = o.rule.replace("C16.c DENSE-MARK", "C11.b COLUMNS-BY-POSITION (C16.c DENSE-MARK)")
     ctx.guard("C11.d FLOAT-KERNEL", "accumulators", lambda: check_float(ctx))
     ctx.guard("C11.e AS-2D", "as_2d_array", lambda: check_as_2d(ctx))
+    ctx.guard("C11.d FLOAT-KERNEL", "anomaliser-statistics", lambda: shared_statistic_dtype(ctx))
     # results are a function of the VALUES handed to this call: no cache keyed on the index / container of an earlier one
     from .c10 import shared_no_stale
 
     shared_no_stale(ctx, "C11.c VALUES-ONLY", [("skchange.change_detectors", "PELT"), ("skchange.change_detectors", "SeededBinarySegmentation"), ("skchange.change_detectors", "MovingWindow"), ("skchange.anomaly_detectors", "CircularBinarySegmentation"), ("skchange.anomaly_detectors", "CAPA"), ("skchange.anomaly_detectors", "MVCAPA")])
     ctx.expect_min("C11.a NORMALISE-DOMINATES-USE", sum(1 for o in ctx.obs if "NORMALISE" in o.rule), 30)
+
+
+def shared_statistic_dtype(ctx):
+    """integer or float dtype holding the same numbers: the per-segment statistics of StatThresholdAnomaliser must not be
+    stored in an array of the DATA's dtype (a mean of 10.5 becomes 10 for int64 input and is compared with the bounds as
+    such).  The C17.b `statistic-dtype` obligation, re-run under the C11 id; nothing else of C17 is repeated here."""
+    from . import c17
+
+    before = len(ctx.obs)
+    mins = dict(ctx.mins)
+    try:
+        c17.check(ctx)
+    except Undecided:
+        pass
+    ctx.mins = mins
+    kept = [o for o in ctx.obs[before:] if o.key == "statistic-dtype"]
+    for o in kept:
+        o.rule = f"C11.d FLOAT-KERNEL ({o.rule})"
+    ctx.obs[before:] = kept
+    if not kept:
+        ctx.holds("C11.d FLOAT-KERNEL", "anomaliser-statistics", "skchange/anomaly_detectors/anomalisers.py", "no buffer of per-segment statistics takes its dtype from the data (C17.b statistic-dtype does not fire)", nontrivial=False)
 
 
 def _summaries(ctx, cls):
